@@ -750,77 +750,21 @@ func c14BasedAt(start, interval uint64, r int64) (uint64, bool) {
 	return uint64(r) - d%interval, true
 }
 
+// c14Tags: predicates on the inputs / the never-stopped run for the two defects that are not repaired. The histories that
+// reproduced the repaired defects (nonce-0 replay, lost forced seal, pruned params, default MaxNonce window, pruning
+// underflow) stay in the case list as untagged regression scenarios: any divergence there is a VIOLATION again.
 func c14Tags(cfg c14Cfg, blocks []c14Block, cont []c14Obs, r int64) []string {
 	tags := map[string]bool{}
-	c14MaxNonce := uint64(cfg.MaxNonce)
+	mn := uint64(cfg.MaxNonce)
 	for i := int64(0); i < r; i++ {
 		if blocks[i].ParamUpd != 0 && blocks[i].PURevert {
 			tags["kf-C14-reverted-params"] = true
 		}
-	}
-	running := func(based uint64) bool { return uint64(r)-based < c14MaxNonce }
-	cnt := map[[3]uint64]int{}
-	for i := int64(0); i < r; i++ {
+		// a transaction finalized (feeder, based) at a block <= r and the round's window is still running after block r
 		for _, f := range cont[i].Fins {
-			if running(f[1]) {
+			if uint64(r)-f[1] < mn {
 				tags["kf-C14-final-reopen"] = true
 			}
-		}
-		for _, c := range cont[i].Counted {
-			cnt[[3]uint64{c[0], c[1], c[2]}]++
-			if cnt[[3]uint64{c[0], c[1], c[2]}] >= 2 && running(c[2]) {
-				tags["kf-C14-nonce0-replay"] = true
-			}
-		}
-		if cont[i].VU > 0 && i > 0 {
-			v := uint64(i + 1)
-			for f := 0; f < 2; f++ {
-				if b, ok := c14BasedAt(cfg.Starts[f], cfg.Intervals[f], r); ok && b < v && running(b) {
-					tags["kf-C14-valset-reopen"] = true
-				}
-			}
-			// feeder 3 (added by a params update) has interval 6
-			if uint64(r)-v < c14MaxNonce {
-				for _, rd := range cont[r-1].Mem.Agc.Rounds {
-					if rd.FeederID == 3 && rd.BasedBlock < v && running(rd.BasedBlock) {
-						tags["kf-C14-valset-reopen"] = true
-					}
-				}
-			}
-		}
-	}
-	// params.MaxNonce above the compile-time default 3: a fresh process computes the replay window with the default
-	if cfg.MaxNonce > 3 {
-		for i := int64(0); i < r-2; i++ { // blocks <= r-2 are outside the default window of a restart after block r
-			for _, c := range cont[i].Counted {
-				if running(c[2]) {
-					tags["kf-C14-default-maxnonce"] = true
-				}
-			}
-		}
-		if r <= int64(cfg.MaxNonce)+1 { // cacheMsgs.commit: block - MaxNonce underflows (uint64) while block < MaxNonce
-			tags["kf-C14-msg-window-underflow"] = true
-		}
-	}
-	o := cont[r-1]
-	// the validator set changed in the block just committed: recache takes the from >= to branch and builds no round table
-	if int64(o.VUB) == r && len(o.Mem.Agc.Rounds) > 0 {
-		tags["kf-C14-valset-reopen"] = true
-	}
-	// recent-params window: the first replayed block needs a params record strictly older than itself
-	from := r + 1 - int64(c14MaxNonce) + 1
-	if int64(o.VUB) >= from {
-		from = int64(o.VUB) + 1
-	}
-	if from < r+1 {
-		has := false
-		for _, b := range o.ParBlks {
-			if int64(b) < from {
-				has = true
-			}
-		}
-		if !has {
-			tags["kf-C14-params-pruned"] = true
 		}
 	}
 	var out []string
@@ -909,6 +853,11 @@ func c14Directed() []c14Plan {
 	d6 := e(16)
 	d6[9].Txs = []c14Tx{{Val: 0, Feeder: 1, Nonce: 1, Based: 9, Prices: px(1, 100)}}
 	d6[12].Txs = []c14Tx{{Val: 1, Feeder: 1, Nonce: 1, Based: 9, Prices: px(1, 100)}}
+	// MaxNonce 4, messages in blocks 2 and 3 (round based 1): committing block 3 must not wipe block 2 (3 - 4 wraps as uint64)
+	d7 := e(12)
+	d7[1].Txs = []c14Tx{{Val: 0, Feeder: 1, Nonce: 1, Based: 1, Prices: px(1, 100)}}
+	d7[2].Txs = []c14Tx{{Val: 1, Feeder: 1, Nonce: 1, Based: 1, Prices: px(2, 101)}}
+	d7[3].Txs = []c14Tx{{Val: 1, Feeder: 1, Nonce: 2, Based: 1, Prices: px(1, 100)}}
 	d3 := e(16)
 	for i := range d3 {
 		d3[i].DT = 20
@@ -921,6 +870,7 @@ func c14Directed() []c14Plan {
 		{name: "kf-params", cfg: two, blocks: d4, n: 14, puAt: -1, depAt: -1},
 		{name: "kf-reverted-params", cfg: two, blocks: d5, n: 14, puAt: -1, depAt: -1},
 		{name: "kf-default-maxnonce", cfg: four, blocks: d6, n: 16, puAt: -1, depAt: -1},
+		{name: "reg-window-underflow", cfg: four, blocks: d7, n: 12, puAt: -1, depAt: -1},
 	}
 }
 
